@@ -439,19 +439,31 @@ def eval_feed(job):
             d = np.array(scen_mix.dirichlet(r, len(idx), r.choice([0.3, 1., 3.])))
         w[idx] = d / np.sum(d)
         trials.append(('random', w))
-    tmin, targ, nskip = 0., None, 0
-    for kind, w in trials:
-        gw, lfw = _gibbs_rows(fm, w, T, P)
-        fw = [math.isfinite(gw[0]), math.isfinite(gw[1])]
-        if not (fw[0] or fw[1]):
-            nskip += 1
-            continue
-        rw = 0 if (fw[0] and (not fw[1] or gw[0] <= gw[1])) else 1
-        wz = w > 0.
-        tpd = float(np.sum(w[wz] * (lfw[rw][wz] - ref[wz])))
-        if math.isfinite(tpd) and tpd < tmin:
-            tmin, targ = tpd, (kind, w.tolist())
-    res['tpd'] = {'min': tmin, 'arg': targ, 'n': len(trials), 'skipped': nskip}
+    tmin, targ, nskip, ntr = 0., None, 0, 0
+    for kind, w0 in trials:
+        # the two Wilson trials are followed along Michelsen's fixed-point map  W <- w exp(ln f(z) - ln f(w))  (15 iterates, each
+        # one is a trial composition); the random trials are evaluated as they are
+        w = w0
+        for it in range(15 if kind == 'wilson' else 1):
+            ntr += 1
+            gw, lfw = _gibbs_rows(fm, w, T, P)
+            fw = [math.isfinite(gw[0]), math.isfinite(gw[1])]
+            if not (fw[0] or fw[1]):
+                nskip += 1
+                break
+            rw = 0 if (fw[0] and (not fw[1] or gw[0] <= gw[1])) else 1
+            wz = w > 0.
+            tpd = float(np.sum(w[wz] * (lfw[rw][wz] - ref[wz])))
+            if math.isfinite(tpd) and tpd < tmin:
+                tmin, targ = tpd, (kind + ':%d' % it, w.tolist())
+            with np.errstate(all='ignore'):
+                Wn = np.zeros(len(w))
+                Wn[wz] = w[wz] * np.exp(ref[wz] - lfw[rw][wz])
+            sW = float(np.sum(Wn))
+            if not (math.isfinite(sW) and sW > 0.):
+                break
+            w = Wn / sW
+    res['tpd'] = {'min': tmin, 'arg': targ, 'n': ntr, 'skipped': nskip}
     return res
 
 
@@ -563,10 +575,14 @@ def check_feed(ctx, res, lines, line_owner):
         mech = ('ng-first-component-K=1', 'the first non-zero component has K = 1 (gas moles are taken from that component alone, l.706-710); ')
     else:
         mech = None
-    if not np.all(np.isfinite(mm)):
-        if mech is not None:
-            ctx.violation(mech[0], mech[1] + 'equilibrium returned non-finite phase masses', dict(case, masses=mm.tolist(), xi=xi.tolist(), K=K.tolist()))
-            return 'nan'
+    finite = bool(np.all(np.isfinite(mm)))
+    if mech is not None:
+        bad = (not finite) or bool(np.any(mm < 0.)) or bool(np.any(np.abs(mm[0] + mm[1] - m) > TOL['identity'] * (np.abs(mm[0]) + np.abs(mm[1]) + np.abs(m))))
+        if bad:
+            ctx.violation(mech[0], mech[1] + 'equilibrium returned ' + ('non-finite' if not finite else 'negative / non-conserving') + ' phase masses',
+                          dict(case, masses=mm.tolist(), xi=xi.tolist(), K=K.tolist()))
+            return 'bad-back-conversion'
+    if not finite:
         if feed_nan:
             ctx.count('flash:skipped(EOS returns NaN fugacity for the feed; C01 matter)')
             return 'eos-nan'
@@ -574,11 +590,11 @@ def check_feed(ctx, res, lines, line_owner):
                       dict(case, masses=mm.tolist(), K=K.tolist()))
         return 'nan'
     if np.any(mm < 0.):
-        ctx.violation(mech[0] if mech else 'negative-phase-mass', (mech[1] if mech else '') + 'a phase mass is negative', dict(case, masses=mm.tolist(), K=K.tolist()))
+        ctx.violation('negative-phase-mass', 'a phase mass is negative', dict(case, masses=mm.tolist(), K=K.tolist()))
     for i in range(n):
         s = abs(mm[0, i]) + abs(mm[1, i]) + abs(m[i])
         if not abs(mm[0, i] + mm[1, i] - m[i]) <= TOL['identity'] * s + 1e-300:
-            ctx.violation(mech[0] if mech else 'component-mass-not-conserved', (mech[1] if mech else '') + 'm_gas,i + m_liq,i differs from the feed mass of component i',
+            ctx.violation('component-mass-not-conserved', 'm_gas,i + m_liq,i differs from the feed mass of component i',
                           dict(case, i=i, masses=mm.tolist(), K=K.tolist(), relative_defect=float((mm[0, i] + mm[1, i] - m[i]) / s)))
             break
     if np.any(mm[:, ~nz] != 0.) or np.any(xi[:, ~nz] != 0.):
@@ -779,10 +795,12 @@ def run_flash(ctx, lean_ok, dbm):
                         ok = (close(xg, res['xi'][0], TOL['gen_vs_source']) and close(xl, res['xi'][1], TOL['gen_vs_source'])
                               and (knan == 1) == code_nan and (code_nan or close(Kv, res['K'], TOL['gen_vs_source'])))
                         mmc = np.array(res['mm'])
-                        if np.all(np.isfinite(mmc)):
-                            tot = np.array(c['m']) + 1e-300
-                            ok = ok and len(mg) == len(tot) and bool(np.all(np.abs(np.array(mg) - mmc[0]) <= 1e-9 * tot)
-                                                                    and np.all(np.abs(np.array(ml) - mmc[1]) <= 1e-9 * tot))
+                        tot = np.array(c['m']) + 1e-300
+                        ok = ok and len(mg) == len(tot) and len(ml) == len(tot)
+                        if ok:
+                            for mod, code in ((np.array(mg), mmc[0]), (np.array(ml), mmc[1])):
+                                both_nan = np.isnan(mod) & np.isnan(code)
+                                ok = ok and bool(np.all(both_nan | (np.abs(mod - code) <= 1e-9 * tot)))
                     if not ok:
                         # ill-conditioned back-conversion (first K ~ 1): model and code both return garbage, not comparable
                         Kf = np.array(res['K'])[np.array(c['m']) > 0.]
@@ -849,6 +867,7 @@ def run_targeted(ctx, dbm):
     masses_not_conserved_when_first_K_is_one; (2) the same witness pushed through the real back-conversion lines with
     a stubbed solver; (3) states next to a phase boundary"""
     r = ctx.rng
+    t_start, t_max, call_budget = time.time(), ctx.n(25., 420.), ctx.n(1.0, 3.0)
     # ---- (2) the Lean witness through the real lines 700-721 (equil_MM stubbed to return the witness rows) ------------
     fm = _fm(['methane', 'ethane', 'propane'])
     saved = dbm.equil_MM
@@ -875,16 +894,23 @@ def run_targeted(ctx, dbm):
         fm = _fm(names)
         ma = np.array(m)
 
+        if time.time() - t_start > t_max:
+            ctx.count('targeted:K_first=1:skipped(time budget of the targeted part)')
+            continue
+
         def K0(P):
             with np.errstate(all='ignore'):
-                return fm.equilibrium(ma, T, P)
+                return call_with_budget(lambda: fm.equilibrium(ma, T, P), call_budget)
 
         def above(P):
-            k = K0(P)[2][0]
+            try:
+                k = K0(P)[2][0]
+            except _Timeout:
+                return None
             return bool(k > 1.) if np.isfinite(k) else None
         try:
             Ps = np.exp(np.linspace(math.log(1e5), math.log(5e7), 40))
-            vals = call_with_budget(lambda: [above(P) for P in Ps], 60.)
+            vals = [above(P) for P in Ps]
             br = None
             for a, b, va, vb in zip(Ps[:-1], Ps[1:], vals[:-1], vals[1:]):
                 if va is not None and vb is not None and va != vb:
@@ -893,13 +919,16 @@ def run_targeted(ctx, dbm):
             if br is None:
                 ctx.count('targeted:K_first=1:no-crossing')
                 continue
-            lo, hi = call_with_budget(lambda: bisect_P(lambda P: above(P) is True, br[0], br[1]), 60.)
+            lo, hi = bisect_P(lambda P: above(P) is True, br[0], br[1])
         except _Timeout:
             ctx.count('targeted:K_first=1:budget-exceeded')
             continue
         nfound += 1
         for P in (lo, hi):
-            mm, xi, K = K0(P)
+            try:
+                mm, xi, K = K0(P)
+            except _Timeout:
+                continue
             ctx.evaluations += 1
             ctx.nontrivial.add(('K1', tuple(names), float('%.12g' % P)))
             ctx.count('targeted:K_first=1:states')
@@ -914,7 +943,7 @@ def run_targeted(ctx, dbm):
     # ---- (3) next to a phase boundary: bisection in P between a one-phase and a two-phase outcome ------------------------
     jobs = []
     tries = 0
-    while len(jobs) < ctx.n(6, 120) and tries < ctx.n(40, 800):
+    while len(jobs) < ctx.n(6, 120) and tries < ctx.n(40, 800) and time.time() - t_start < t_max:
         tries += 1
         names = scen_mix.pick_mixture(r, 2, 5, EXCLUDE, want_light=True)
         fm = _fm(names)
@@ -923,17 +952,17 @@ def run_targeted(ctx, dbm):
 
         def two(P):
             with np.errstate(all='ignore'):
-                mm = fm.equilibrium(ma, T, P)[0]
+                mm = call_with_budget(lambda: fm.equilibrium(ma, T, P), call_budget)[0]
             return bool(np.sum(mm[0]) > 0. and np.sum(mm[1]) > 0.)
         try:
             Ps = np.exp(np.linspace(math.log(1e5), math.log(5e7), 12))
-            vals = call_with_budget(lambda: [two(P) for P in Ps], 20.)
+            vals = [two(P) for P in Ps]
             br = [(a, b) for a, b, va, vb in zip(Ps[:-1], Ps[1:], vals[:-1], vals[1:]) if va != vb]
             if not br:
                 continue
             a, b = r.choice(br)
             fa = two(a)
-            lo, hi = call_with_budget(lambda: bisect_P(lambda P: two(P) == fa, a, b, nmax=r.choice([8, 20, 60])), 20.)
+            lo, hi = bisect_P(lambda P: two(P) == fa, a, b, nmax=r.choice([8, 20, 60]))
         except _Timeout:
             ctx.count('targeted:boundary:budget-exceeded')
             continue
@@ -949,6 +978,11 @@ def run_targeted(ctx, dbm):
 def run(ctx, lean_ok):
     warnings.simplefilter('ignore')
     from tamoc import dbm
+    t = [time.time()]
     run_rr(ctx, lean_ok, dbm)
+    t.append(time.time())
     run_flash(ctx, lean_ok, dbm)
+    t.append(time.time())
     run_targeted(ctx, dbm)
+    t.append(time.time())
+    ctx.notes.append('wall time of the three parts (phase-split solve, flash, targeted): %.1f s, %.1f s, %.1f s' % (t[1] - t[0], t[2] - t[1], t[3] - t[2]))
